@@ -474,21 +474,26 @@ PROPS["C19"] = {
             "sandbox (escapes), the metadata directory (names, byte identity with the source), every target (identical / "
             "different / absent, unexpected files), then the copy is loaded through file:// URLs (with the shipped root when "
             "the chain was copied, else with the trusted root) and every cached target is read back. 250 / 4000 repositories.",
-    "explanation": "Theorems (Tough/Props/C19.lean, Tough/Proofs/ClientCongr.lean): an update cycle depends on the "
-                   "repository only through the files it requests (cycle_congr: two servers that answer alike for every "
-                   "requested file give the same cycle, by induction through the root walk, the delegation loading and "
-                   "every phase); hence a copy that holds every requested file loads exactly like the original "
-                   "(cached_copy_loads_alike; its hypothesis is evaluated by the driver on every generated repository); "
-                   "the copy answers only for copied files (cachedServer_get, copy_serves_only_copied); with the chain "
-                   "requested every root version 1..trusted is among the copied files (root_chain_complete). "
-                   "Correspondence: which metadata files are copied, whether `cache` succeeds, and what loading the copy "
-                   "yields, vs the model; the property is evaluated directly on the directories.",
-    "level_text": "Kernel-checked frame theorem of the client model (the cycle depends only on requested files) and its corollary "
-                  "for copies; differential runs of cache + reload over random repositories with odd names.",
-    "level_note": "PARTIAL: that the files `cache_metadata_impl` copies cover the requests of a loading cycle is evaluated per "
-                  "generated repository, not proved for all; target copying rests on C08 (save_target); metadata is re-fetched "
-                  "from the source without verification (a source that changes between load and cache is outside the model); "
-                  "known finding: a cached target whose name needs URL escaping cannot be read back through file://.",
+    "explanation": "Theorems (Tough/Props/C19.lean, Tough/Proofs/ClientCongr.lean, Tough/Proofs/ClientReqs.lean): an update cycle "
+                   "depends on the repository only through the files it requests (cycle_congr: two servers that answer alike for "
+                   "every requested file give the same cycle, by induction through the root walk, the delegation loading and every "
+                   "phase); every file a successful cycle requests is on `cache`'s list or is the probe for the next root version "
+                   "(cycle_reqsIn, requests_covered, requests_covered_from_trusted_root: by induction through the root walk and "
+                   "the delegation tree); hence a copy of a loaded repository made by a `cache` that succeeded loads exactly like "
+                   "the original, with the root chain from the shipped root (copy_of_loaded_repository_loads_alike) and without it "
+                   "from the trusted root (copy_without_chain_loads_alike), provided the source has no later root version; the "
+                   "copy answers only for copied files (cachedServer_get, copy_serves_only_copied); with the chain requested every "
+                   "root version 1..trusted is among the copied files (root_chain_complete). Correspondence: which metadata files "
+                   "are copied, whether `cache` succeeds, and what loading the copy yields, vs the model; the property is "
+                   "evaluated directly on the directories.",
+    "level_text": "Kernel-checked: the cycle depends only on requested files, the requested files are the copied ones, hence the "
+                  "copy loads alike; differential runs of cache + reload over random repositories with odd names.",
+    "level_note": "The metadata half is proved in full over the model. PARTIAL with respect to the rest: target copying rests on "
+                  "C08 (save_target); metadata is re-fetched from the source without verification (a source that changes between "
+                  "load and cache is outside the model); a source that serves an unreadable or same-version file under the next "
+                  "root's name is excluded by hypothesis (the copy then stops at the same root but by a different path; covered "
+                  "by the differential runs); known finding: a cached target whose name needs URL escaping cannot be read back "
+                  "through file://.",
     "trusted": ["modelled, not verified: tokio file I/O (after the fix: write_all + flush), Url::join, the file system"],
     "assumptions": ["the source does not change between `load` and `cache`"],
 }
